@@ -765,6 +765,20 @@ class Plan(object):
                                   "probes": [probe]})
                 self.add({"type": "config", "steps": steps})
 
+    # ---- (A2b) user data with NATIVE values in a toml file (booleans and numbers stay bool / int there) overridden by -D:
+    # the command-line text wins as it stands ("false", "off", "0" are texts; the typed getters convert them)
+    def native_userdata(self):
+        for n, (native, cmd_text) in enumerate([(True, "false"), (True, "off"), (True, "0"), (False, "yes"), (5, "7"), (2.5, "x"), (True, None), (7, None)]):
+            v = self.tick()
+            for where in ("cwd", "home"):
+                vals = {"d": [MISSING], "fv1": [pstr(native)], "fv2": ["unused"], "cv1": [cmd_text or "unused"], "cv2": ["unused"], "forced": [NONE]}
+                probe = {"row": "layer", "dest": "userdata", "name": "x", "okind": "userdata", "islist": False, "pathy": False,
+                         "lower": False, "files": ["v1"], "cmd": "v1" if cmd_text is not None else "absent", "mfiles": ["absent"], "mcmd": "absent",
+                         "hasmode": False, "mode": "", "vals": vals, "form": "native%d" % n}
+                self.add({"type": "config", "layout": DEPTHS[(v + n) % 2],
+                          "files": [{"where": where, "name": "pyproject.toml", "behave": [], "userdata": [("x", native)]}],
+                          "argv": ["-D", "x=%s" % cmd_text] if cmd_text is not None else [], "load_config": True, "probes": [probe]})
+
     # ---- (A3) histories over ONE untouched file: a construction that rewrites list-valued settings for its mode
     # (--steps-catalog puts its own formatter into config.format) is followed by a plain construction from the same file
     def same_file_histories(self):
@@ -1149,6 +1163,7 @@ def run(chk):
     plan.single_option(layer_cases, 2 if chk.quick() else 8)
     plan.histories(cases, 0 if chk.quick() else 40)
     plan.same_file_histories()
+    plan.native_userdata()
     plan.coupled(layer_cases)
     plan.subsets(120 if chk.quick() else 4000)
     plan.colour_switch(cases, 6 if chk.quick() else 30)
